@@ -1,0 +1,9 @@
+//go:build verif
+
+package simple
+
+// VerifShutdown stops the journal's background threads of this server
+// instance (the simple server has no shutdown of its own).
+func (nfs *Nfs) VerifShutdown() {
+	nfs.t.Shutdown()
+}
